@@ -11,9 +11,21 @@ import (
 
 // Module draws a module.
 func Module(rt *rapid.T, cfg Cfg) (*am.Module, map[string]int) {
+	// One module in twelve is large: enough blocks, instructions and globals for three-digit local IDs
+	// and two-digit global IDs, lists with many elements, and whatever else only shows at scale.
+	if !cfg.NoScale && rapid.IntRange(0, 11).Draw(rt, "scale") == 0 {
+		cfg.MaxBlocks, cfg.MaxInsts, cfg.MaxGlobals = 3*cfg.MaxBlocks, 4*cfg.MaxInsts, 6*cfg.MaxGlobals
+		if cfg.UnnamedBias < 8 {
+			cfg.UnnamedBias = 8
+		}
+		cfg.scaled = true
+	}
 	g := &G{rt: rt, cfg: cfg, used: map[string]bool{}, Features: map[string]int{}}
 	if g.cfg.Off == nil {
 		g.cfg.Off = map[string]bool{}
+	}
+	if cfg.scaled {
+		g.feat("profile/large")
 	}
 	g.M = &am.Module{}
 	g.M.U = GenUniverse(rt, 3)
